@@ -15,7 +15,7 @@ RULE = ("Exhaustive call sequences over 15 wrapper operations (accept, accept(su
         "(thorough <=5) x every server script (connect; 0-3 frames text/bytes/both-keys; disconnect at every position or never), plus "
         "length 5 (thorough 6) over a sample of scripts; plus every sequence of length <=3 (thorough 4) with each adjacent pair overlapped (call i suspended inside "
         "the server's send() while call i+1 runs to completion - two tasks sharing the socket). Non-trivial = sequence containing an accept or close and >=2 calls; distinct by construction.")
-RULE += " Also: empty text / binary frames, the websocket_session shortcut, a pending receive cancelled on a real event loop, the server's send() failing for the n-th forwarded event, `async for` over iter_text / iter_bytes left early and reading continued by another call (event loop; at most one server receive outstanding); 2-5 tasks waiting in a receive variant of one socket at once (each frame returned to exactly one of them, per-task arrival order). Empty frames are also SENT (the third call of every sequence). accept() / receive() cancelled while waiting for the connect event and tried again; close() from 2-3 tasks at once; two connections alive at the same time with alternating calls (each as alone). The client offers its subprotocols as chat,proto TAB, v2 (accept(proto) is legal); close codes 1012 / 1013 / 1014 / 3000 / 4001 / 4999 / 1000 / 1011."
+RULE += " Also: empty text / binary frames, the websocket_session shortcut, a pending receive cancelled on a real event loop, the server's send() failing for the n-th forwarded event, `async for` over iter_text / iter_bytes left early and reading continued by another call (event loop; at most one server receive outstanding); 2-5 tasks waiting in a receive variant of one socket at once (each frame returned to exactly one of them, per-task arrival order). Empty frames are also SENT (the third call of every sequence). accept() / receive() cancelled while waiting for the connect event and tried again; close() from 2-3 tasks at once; two connections alive at the same time with alternating calls (each as alone). The client offers its subprotocols as chat,proto TAB, v2 (accept(proto) is legal); close codes 1012 / 1013 / 1014 / 3000 / 4001 / 4999 / 1000 / 1011. The code of a plain close() (1000) and the absence of a subprotocol in a plain accept()."
 ASSUMPTIONS = [
     "a typed receive that meets a frame of the other type (or the connect event) has an unspecified outcome (KeyError/None tolerated); the event counts as consumed",
     "a call that would wait for a server event that never comes ends the scenario (the coroutine is suspended, nothing is judged after it)",
